@@ -564,8 +564,19 @@ def compare_fit_results(ctx, case, fa, fb, tag, key, minimizer):
     ok = ctx.check("fit.parameter_values", bool(np.all(dev <= ptol * sig + 1e-9 * (1.0 + np.abs(pa)))), lambda: dict(det, got=pb, expected=pa, sigma=sig, deviation_in_sigma=dev / np.where(sig > 0, sig, 1.0), tolerance_sigma=ptol), key=lambda: key("fit.parameter_values"))
     ca, cb = float(fa.cost_function_value), float(fb.cost_function_value)
     ok = ctx.check("fit.cost", abs(ca - cb) <= ctol, lambda: dict(det, got=cb, expected=ca, tolerance=ctol), key=lambda: key("fit.cost")) and ok
-    if ea is not None and eb is not None and ok:
-        ok = ctx.check("fit.parameter_errors", bool(np.all(np.abs(ea - eb) <= 2e-2 * np.maximum(np.abs(ea), np.abs(eb)) + 1e-12)), lambda: dict(det, got=eb, expected=ea, tolerance_rel=2e-2), key=lambda: key("fit.parameter_errors")) and ok
+    if ea is not None and eb is not None and ok and case.get("compare_errors", True):
+        # HESSE / numdifftools second derivatives amplify last-bit differences of the cost in proportion to the condition number of the
+        # parameter correlation matrix (C05: observed 2.4e-2 at cond 6e6): etol = max(2e-2, 2e-8 * cond)
+        etol = 2e-2
+        try:
+            cor = np.array(fa.parameter_cor_mat, dtype=float)
+            free = [i for i in range(len(ea)) if ea[i] > 0 and np.isfinite(ea[i])]
+            cond = float(np.linalg.cond(cor[np.ix_(free, free)])) if len(free) > 1 else 1.0
+            etol = max(2e-2, 2e-8 * cond) if np.isfinite(cond) else 1.0
+        except Exception:
+            cond = None
+        ctx.note("errors-compared-at-2e-2" if etol <= 2e-2 else "errors-compared-looser-ill-conditioned")
+        ok = ctx.check("fit.parameter_errors", bool(np.all(np.abs(ea - eb) <= etol * np.maximum(np.abs(ea), np.abs(eb)) + 1e-12)), lambda: dict(det, got=eb, expected=ea, tolerance_rel=etol, cond_cor=cond), key=lambda: key("fit.parameter_errors")) and ok
     return ok
 
 
@@ -1043,6 +1054,7 @@ def gen_wrapper_xy(rng, tier, variant, sub):
         others = [k for k in XY_KW if k != "y_error"]
         chosen = ["y_error"] + [str(k) for k in rng.choice(others, size=int(rng.integers(0, 4)), replace=False)]
     kw, ops, arr = {}, [], []
+    compare_errors = True
     for k in chosen:
         axis, relative, correlated = XY_KW[k]
         scale = (0.03 if axis == "x" else 0.06) if relative else (0.08 if axis == "x" else 0.1 * float(np.abs(y).mean() + np.std(y) + 0.3))
@@ -1067,6 +1079,10 @@ def gen_wrapper_xy(rng, tier, variant, sub):
         if prof != "default":
             kw["profile"] = prof == "true"
             do_fit = {"asymmetric_parameter_errors": prof == "true"}
+        else:
+            # xy_fit's docstring leaves the meaning of profile=None open (the code then decides from the kinds of errors given): whether the
+            # asymmetric errors are evaluated influences the reported symmetric errors at the percent level, so they are not compared here
+            compare_errors = False
     else:
         kw = {K2_NAMES.get(k, k): v for k, v in kw.items()}
         arr = [K2_NAMES.get(k, k) for k in arr]
@@ -1075,7 +1091,7 @@ def gen_wrapper_xy(rng, tier, variant, sub):
     data = {"x": spec["x"], "y": spec["y"]}
     A = {"how": "wrapper", "func": func, "ftype": "xy", "model": mfA, "data": data, "kwargs": kw, "array_kwargs": arr, "tuple_kwargs": tup}
     B = {"how": "explicit", "ftype": "xy", "model": mfB, "data": data, "ops": ops, "do_fit": do_fit}
-    return wrapper_case(variant, sub, A, B, rng, names, defaults, features={"keywords": sorted(k for k in kw if k not in ("save", "report", "plot", "quiet")), "rel_to_model": eff_model})
+    return wrapper_case(variant, sub, A, B, rng, names, defaults, compare_errors=compare_errors, features={"keywords": sorted(k for k in kw if k not in ("save", "report", "plot", "quiet")), "rel_to_model": eff_model})
 
 
 def gen_wrapper_generic(rng, tier, variant, sub):
@@ -1584,7 +1600,7 @@ def spec_uses_sympy_string(sf):
 
 def classify(case, observable):
     try:
-        if case["family"] == "model-form" and any(spec_uses_sympy_string(case[k]) for k in ("A", "B")) and sympy_shadowed(case["features"]["params"]):
+        if case["family"] == "model-form" and observable in ("realise.no-exception", "model", "exception") and any(spec_uses_sympy_string(case[k]) for k in ("A", "B")) and sympy_shadowed(case["features"]["params"]):
             # SymPy-style string whose parameter names exist in SymPy's namespace (E, I, N, S, Q, beta, gamma, ...): sympify() without
             # `locals` resolves them to constants / functions instead of the declared symbols
             return "C14/sympy-string-parameter-name-resolved-in-sympy-namespace"
